@@ -94,6 +94,33 @@ pub fn c13_api(r: &mut Rng, n: usize) {
             Some(Err(e)) => { l.s("err").s(if e == "Cancelled" { "cancelled" } else { "failed" }); }
         }
         l.emit();
+        if cancel {
+            // the caller never lowered the flag: a second call on the SAME flag is cancelled as well
+            let mut l = Line::new("C13", &format!("api/{}/cancelled-before/reused-flag", k.fam), "rrt");
+            l.j6(&q).j6(&goal).f(planner.step_size_joint_space).n(planner.max_try).b(true).j6(&f).j6(&t).arrow();
+            match catch(AssertUnwindSafe(|| planner.plan_rrt(&q, &goal, &k.kws, &stop))) {
+                None => { l.s("panic"); }
+                Some(Ok(path)) => { l.s("ok").n(path.len()); for p in &path { l.j6(p).b(k.kws.collides(p)).b(k.kws.constraints().as_ref().unwrap().compliant(p)); } }
+                Some(Err(e)) => { l.s("err").s(if e == "Cancelled" { "cancelled" } else { "failed" }); }
+            }
+            l.emit();
+        }
+        if i % 3 == 2 {
+            // a planner step below a milliradian and a goal close by: the three-step bound is about the CONFIGURED step
+            let tiny = RRTPlanner { step_size_joint_space: *r.pick(&[4e-4, 2.5e-4, 8e-4]), max_try: 4000, debug: false };
+            let mut near = q; for kk in 0..6 { near[kk] += r.range(-0.004, 0.004); }
+            if !k.kws.collides(&near) && k.kws.constraints().as_ref().unwrap().compliant(&near) {
+                let stop4 = AtomicBool::new(false);
+                let mut l = Line::new("C13", "api/tiny-step", "rrt");
+                l.j6(&q).j6(&near).f(tiny.step_size_joint_space).n(tiny.max_try).b(false).j6(&f).j6(&t).arrow();
+                match catch(AssertUnwindSafe(|| tiny.plan_rrt(&q, &near, &k.kws, &stop4))) {
+                    None => { l.s("panic"); }
+                    Some(Ok(path)) => { l.s("ok").n(path.len()); for p in &path { l.j6(p).b(k.kws.collides(p)).b(k.kws.constraints().as_ref().unwrap().compliant(p)); } }
+                    Some(Err(e)) => { l.s("err").s(if e == "Cancelled" { "cancelled" } else { "failed" }); }
+                }
+                l.emit();
+            }
+        }
         if i % 4 == 1 {
             // start and goal identical, flag raised: still an error, not a trivial path
             let stop3 = AtomicBool::new(true);
@@ -229,7 +256,8 @@ pub fn c12(seed: u64, n: usize) {
         // scheduling: the same problem under other pool sizes and repeated
         if done % 2 == 0 {
             let mut l = Line::new("C12", &fam, "plan_sched");
-            l.arrow();
+            // without obstacles no random re-planning is needed: only then is success promised to be schedule-independent
+            l.b(layout == 0).arrow();
             let first_ok = matches!(res, Some(Ok(_)));
             l.b(first_ok);
             let mut outcomes = vec![];
